@@ -450,6 +450,139 @@ theorem sortGroups_of_sorted (l : List (Nat × α)) (h : l.Pairwise (fun a b => 
     | nil => rfl
     | cons a t => simp [insertGroup, hg.1 a List.mem_cons_self]
 
+
+/-! ### decimal digits and `"%f"` labels -/
+
+theorem digitsAux_lt (f n : Nat) : ∀ d ∈ digitsAux f n, d < 10 := by
+  induction f generalizing n with
+  | zero => simp [digitsAux]
+  | succ f ih =>
+    intro d hd
+    simp only [digitsAux] at hd
+    split at hd
+    · simp only [List.mem_singleton] at hd; omega
+    · rcases List.mem_cons.mp hd with h | h
+      · omega
+      · exact ih _ d h
+
+theorem ofLE_digitsAux (f n : Nat) (h : n < f) : ofLE (digitsAux f n) = n := by
+  induction f generalizing n with
+  | zero => omega
+  | succ f ih =>
+    simp only [digitsAux]
+    split
+    · simp [ofLE]
+    · simp only [ofLE]
+      rw [ih (n / 10) (by omega)]
+      omega
+
+theorem ofLE_digitsLE (n : Nat) : ofLE (digitsLE n) = n := ofLE_digitsAux (n + 1) n (by omega)
+
+theorem foldl_ofBE_append (acc : Nat) (l : List Nat) (d : Nat) :
+    (l ++ [d]).foldl (fun acc d => 10 * acc + d) acc = 10 * l.foldl (fun acc d => 10 * acc + d) acc + d := by
+  simp [List.foldl_append]
+
+theorem ofBE_reverse (l : List Nat) : ofBE l.reverse = ofLE l := by
+  induction l with
+  | nil => rfl
+  | cons d ds ih =>
+    unfold ofBE at *
+    rw [List.reverse_cons, foldl_ofBE_append, ih]
+    simp only [ofLE]; omega
+
+theorem ofBE_pad6 (m : Nat) (h : m < 1000000) : ofBE (pad6 m) = m := by
+  simp only [ofBE, pad6, List.foldl_cons, List.foldl_nil]
+  omega
+
+theorem ofBE_zero_pad (k : Nat) (ds : List Nat) : ofBE (List.replicate k 0 ++ ds) = ofBE ds := by
+  unfold ofBE
+  rw [List.foldl_append]
+  have : (List.replicate k 0).foldl (fun acc d => 10 * acc + d) 0 = 0 := by
+    induction k with
+    | zero => rfl
+    | succ k ih => simp [List.replicate_succ, ih]
+  rw [this]
+
+theorem takeWhile_append_stop (p : Nat → Bool) (a b : List Nat) (x : Nat)
+    (ha : ∀ y ∈ a, p y = true) (hx : p x = false) : (a ++ x :: b).takeWhile p = a := by
+  induction a with
+  | nil => simp [hx]
+  | cons y ys ih =>
+    simp only [List.cons_append, List.takeWhile, ha y List.mem_cons_self]
+    rw [ih (fun z hz => ha z (List.mem_cons_of_mem _ hz))]
+
+theorem dropWhile_append_stop (p : Nat → Bool) (a b : List Nat) (x : Nat)
+    (ha : ∀ y ∈ a, p y = true) (hx : p x = false) : (a ++ x :: b).dropWhile p = x :: b := by
+  induction a with
+  | nil => simp [hx]
+  | cons y ys ih =>
+    simp only [List.cons_append, List.dropWhile, ha y List.mem_cons_self]
+    exact ih (fun z hz => ha z (List.mem_cons_of_mem _ hz))
+
+theorem map_add_sub (l : List Nat) : (l.map (· + 48)).map (· - 48) = l := by
+  induction l with
+  | nil => rfl
+  | cons a t ih => simp [ih]
+
+/-- reading a `"%f"` label as a number gives back the number it was rendered from -/
+theorem valueF_renderF (N : Nat) : valueF (renderF N) = N := by
+  have hint : ∀ y ∈ (digitsLE (N / 1000000)).reverse.map (· + 48), (y != 46) = true := by
+    intro y hy
+    rcases List.mem_map.mp hy with ⟨d, hd, rfl⟩
+    have := digitsAux_lt _ _ d (List.mem_reverse.mp hd)
+    simp only [bne_iff_ne, ne_eq]; omega
+  have h46 : ((46 : Nat) != 46) = false := by decide
+  unfold valueF renderF
+  rw [takeWhile_append_stop _ _ _ _ hint h46, dropWhile_append_stop _ _ _ _ hint h46]
+  simp only [List.drop_succ_cons, List.drop_zero, map_add_sub]
+  rw [ofBE_reverse, ofLE_digitsLE, ofBE_pad6 _ (Nat.mod_lt _ (by decide))]
+  omega
+
+theorem renderF_injective (a b : Nat) (h : renderF a = renderF b) : a = b := by
+  have := congrArg valueF h
+  simpa [valueF_renderF] using this
+
+theorem argmaxFirst_spec (key : σ → Nat) (l : List σ) (m : σ) (h : argmaxFirst key l = some m) :
+    m ∈ l ∧ ∀ x ∈ l, key x ≤ key m := by
+  induction l generalizing m with
+  | nil => simp [argmaxFirst] at h
+  | cons s ss ih =>
+    simp only [argmaxFirst] at h
+    cases hl : argmaxFirst key ss with
+    | none =>
+      rw [hl] at h
+      have hs : ss = [] := by
+        cases ss with
+        | nil => rfl
+        | cons a t =>
+          simp only [argmaxFirst] at hl
+          cases h2 : argmaxFirst key t <;> simp [h2] at hl
+      subst hs
+      simp only [Option.some.injEq] at h
+      subst h
+      simp
+    | some m' =>
+      rw [hl] at h
+      have hm := ih m' hl
+      simp only [Option.some.injEq] at h
+      subst h
+      constructor
+      · split
+        · exact List.mem_cons_self
+        · exact List.mem_cons_of_mem _ hm.1
+      · intro x hx
+        rcases List.mem_cons.mp hx with rfl | hx
+        · split <;> omega
+        · have := hm.2 x hx
+          split <;> omega
+
+theorem argmaxFirst_isSome (key : σ → Nat) (l : List σ) (h : l ≠ []) : (argmaxFirst key l).isSome := by
+  cases l with
+  | nil => exact absurd rfl h
+  | cons s ss =>
+    simp only [argmaxFirst]
+    cases argmaxFirst key ss <;> rfl
+
 theorem zip_map_fst_snd (l : List (Nat × List β)) (f : List β → γ) :
     (l.map (·.1)).zip (l.map (fun g => f g.2)) = l.map (fun g => (g.1, f g.2)) := by
   induction l with
